@@ -353,8 +353,8 @@ class C03(Prop):
     trusted_extra = ["modelled pandas primitives: Series.drop_duplicates (keep first), Index.difference (unique, sorted), "
                      "Series.reindex, sort_index, MultiIndex .loc on the first level; numpy int64 wrap-around and floor modulo"]
     n_quick = 150
-    n_thorough = 2500
-    case_timeout = 30
+    n_thorough = 2000
+    case_timeout = 15
     workers = 4
     rule = ("cases = registration histories on a bare IndexMap (and small real simulations); distinct by case hash; "
             "non-trivial = at least one key was moved by collision resolution or a duplicate batch was rejected")
